@@ -31,6 +31,88 @@ Proof.
   destruct (existsb _ path); auto. apply walk_total.
 Qed.
 
+(** Find on a selection below the root, with "../" steps and a query part *)
+Theorem find_rel_total : forall w names row path, is_panic (find_rel false w names row path) = false.
+Proof.
+  intros. unfold find_rel.
+  destruct (anc_chain _ _ _ _) as [chain|]; auto.
+  destruct (go_up chain path) as [[[|s rest] p]|]; auto.
+  destruct (cut_first x3f p) as [[pp q]|]; [|apply walk_total].
+  pose proof (walk_total (split_on x2f pp) (w_module w) (match rest with [] => true | _ => false end) (NSk s)) as T.
+  destruct (walk _ _ _ _ _); simpl in *; auto.
+Qed.
+
+(** more "../" steps than there are selections above the start selection: an error *)
+Lemma go_up_length : forall chain p c' p', go_up chain p = Some (c', p') -> (0 < length c' <= length chain)%nat.
+Proof.
+  induction chain as [|s rest IH]; intros p c' p' H; simpl in H; [discriminate|].
+  destruct (starts_dotdot p).
+  - destruct rest as [|s2 r2]; [discriminate|]. apply IH in H. simpl in *. lia.
+  - inversion H; subst. simpl. lia.
+Qed.
+
+
+Definition no_qmark (p : list byte) : Prop := existsb (Byte.eqb x3f) p = false.
+
+Lemma starts_dotdot_app : forall p q, no_qmark p -> starts_dotdot (p ++ x3f :: q) = starts_dotdot p.
+Proof.
+  intros p q _. destruct p as [|a [|b [|c t]]]; simpl.
+  - destruct q as [|b [|c t]]; reflexivity.
+  - destruct q; simpl; destruct (Byte.eqb a x2e); reflexivity.
+  - destruct (Byte.eqb a x2e), (Byte.eqb b x2e); reflexivity.
+  - reflexivity.
+Qed.
+
+Lemma no_qmark_skipn : forall n p, no_qmark p -> no_qmark (skipn n p).
+Proof.
+  unfold no_qmark. induction n; destruct p; simpl; auto. intros H.
+  apply orb_false_elim in H. apply IHn. tauto.
+Qed.
+
+Lemma skipn3_app : forall p (x : list byte), starts_dotdot p = true -> skipn 3 (p ++ x) = skipn 3 p ++ x.
+Proof. intros p x H. destruct p as [|a [|b [|c t]]]; simpl in *; try discriminate; reflexivity. Qed.
+
+Lemma go_up_app : forall chain p q, no_qmark p ->
+  go_up chain (p ++ x3f :: q) =
+    match go_up chain p with Some (c', p') => Some (c', p' ++ x3f :: q) | None => None end
+  /\ (forall c' p', go_up chain p = Some (c', p') -> no_qmark p').
+Proof.
+  induction chain as [|s rest IH]; intros p q Hp; [simpl; split; [reflexivity|discriminate]|].
+  cbn [go_up]. rewrite starts_dotdot_app by exact Hp.
+  destruct (starts_dotdot p) eqn:D.
+  - destruct rest as [|s2 r2]; [split; [reflexivity|discriminate]|].
+    rewrite skipn3_app by exact D. apply IH. apply no_qmark_skipn. exact Hp.
+  - split; [reflexivity|]. intros c' p' H. inversion H; subst. exact Hp.
+Qed.
+
+Lemma byte_eqb_sym : forall a b : byte, Byte.eqb a b = Byte.eqb b a.
+Proof.
+  intros a b. destruct (Byte.eqb a b) eqn:E, (Byte.eqb b a) eqn:F; auto.
+  - apply byte_dec_bl in E. subst. rewrite (byte_dec_lb eq_refl) in F. discriminate.
+  - apply byte_dec_bl in F. subst. rewrite (byte_dec_lb eq_refl) in E. discriminate.
+Qed.
+
+Lemma cut_first_app : forall p q, no_qmark p -> cut_first x3f (p ++ x3f :: q) = Some (p, q) /\ cut_first x3f p = None.
+Proof.
+  unfold no_qmark. induction p as [|c t IH]; intros q H; simpl in *; [split; reflexivity|].
+  apply orb_false_elim in H. destruct H as [Hc Ht].
+  rewrite byte_eqb_sym in Hc. rewrite Hc.
+  destruct (IH q Ht) as [-> ->]. split; reflexivity.
+Qed.
+
+(** the query part is cut where it starts in what the "../" steps leave of the path: whatever the query is
+    and however many "../" steps precede it, the verdict is that of the path without the query, except that
+    the query may turn a normal result into an error *)
+Theorem find_rel_query_cut : forall w names row p q, no_qmark p ->
+  find_rel false w names row (p ++ x3f :: q) = with_query (find_rel false w names row p).
+Proof.
+  intros w names row p q Hp. unfold find_rel.
+  destruct (anc_chain _ _ _ _) as [chain|]; [|reflexivity].
+  destruct (go_up_app chain p q Hp) as [-> Hn].
+  destruct (go_up chain p) as [[[|s rest] p']|]; try reflexivity.
+  destruct (cut_first_app p' q (Hn _ _ eq_refl)) as [-> ->]. reflexivity.
+Qed.
+
 (** a step below a leaf, a leaf-list or a choice is an error (whatever the segment is) *)
 Theorem step_below_leaf_is_error : forall modname r cur seg,
   (cur = NChoice \/ exists n g l k, cur = NSk (SkLeaf n g l k)) ->
@@ -86,3 +168,14 @@ Example find_fixed_rejects_both :
   find_path false demo_world [x63;x3d;x31] = MErr /\ find_path false demo_world [x74;x6f;x70;x2f;x78] = MErr /\
   find_path false demo_world [x63;x2f;x7a] = MOkOrErr.
 Proof. vm_compute. auto. Qed.
+
+(** with one "../" too many the request is an error, with or without a query *)
+Example find_rel_demo :
+  (* on the selection of container c:  "../top?"  "../top?a=1"  "../../top"  "../c=1?a"  "z?"  "../nosuch?depth=1" *)
+  find_rel false demo_world [[x63]] false [x2e;x2e;x2f;x74;x6f;x70;x3f] = MOkOrErr /\
+  find_rel false demo_world [[x63]] false [x2e;x2e;x2f;x74;x6f;x70;x3f;x61;x3d;x31] = MOkOrErr /\
+  find_rel false demo_world [[x63]] false [x2e;x2e;x2f;x2e;x2e;x2f;x74;x6f;x70] = MErr /\
+  find_rel false demo_world [[x63]] false [x2e;x2e;x2f;x63;x3d;x31;x3f;x61] = MErr /\
+  find_rel false demo_world [[x63]] false [x7a;x3f] = MOkOrErr /\
+  find_rel false demo_world [[x63]] false [x2e;x2e;x2f;x6e;x6f;x73;x75;x63;x68;x3f;x64;x65;x70;x74;x68;x3d;x31] = MErr.
+Proof. vm_compute. repeat split. Qed.
